@@ -115,7 +115,7 @@ def submission():
     files = {'answer.py': BASE}
     files.update(EXTRA_FILES)
     return Submission(files=files, main_file='answer.py', main_code=BASE)
-ENTRIES = ['run', 'call', 'evaluate', 'run-real-io']
+ENTRIES = ['run', 'call', 'evaluate', 'run-real-io', 'call-in-handler']
 SCHEDULES = ['caller-first', 'student-first', 'student-during-next', 'student-never']
 FOLLOWUPS = [['run-input-default', 'run-print'], ['run-exit-threaded', 'run-print'], ['call-say', 'run-slow'], ['run-print', 'run-slow'], ['evaluate-say', 'call-ask'], ['call-ask', 'run-slow', 'call-say'], ['run-slow', 'run-print'], []]
 LIMITS = [0.1, 0.2]
@@ -265,6 +265,12 @@ def judge(case):
             sb.run('%s()\n' % kind, filename='answer.py', real_io=True)
         elif entry == 'call':
             sb.call(kind)
+        elif entry == 'call-in-handler':
+            # the instructor script falls back to calling the student's function while it handles an exception of its own
+            try:
+                raise KeyError('the instructor script looked something up')
+            except KeyError:
+                sb.call(kind)
         else:
             sb.evaluate('%s()' % kind)
     except BaseException as e:
